@@ -150,10 +150,14 @@ def _worker_init(curve, modname):
     importlib.import_module(modname)
 
 
+T_START = [0.0]
+
+
 def _worker_run(args):
     modname, job = args
     mod = importlib.import_module(modname)
     t0 = time.time()
+    T_START[0] = t0
     try:
         res = mod.run_job(job)
         res["wall"] = time.time() - t0
@@ -564,13 +568,22 @@ def interrupt_jobs(n, curve=None, weight=4):
     return [{"name": f"interrupted/{i}", "part": "interrupted", "idx": i, "curve": curve, "weight": weight} for i in range(n)]
 
 
-def run_interrupt_job(job, xs, probes, run_case, files):
+def run_interrupt_job(job, xs, probes, run_case, files, pre=()):
     """E6 (vf/seqexplore.interrupted): operation xs[idx] interrupted at every line, then the probe operations"""
     from vf import seqexplore
     _preimport_plain()
     acc = Acc(job)
     hits = 2 if job["tier"] == "quick" else 4
-    n = seqexplore.interrupted(acc, xs[job["idx"]], [p for p in probes if not p[0].startswith("env-")], run_case, files, scratch_dir(), max_hits=hits)
+    x = xs[job["idx"]]
+    probes = [p for p in probes if not p[0].startswith("env-")]
+    n = seqexplore.interrupted(acc, x, probes, run_case, files, scratch_dir(), max_hits=hits, pre=pre)
+    if not pre and job.get("warm", True) and (job["tier"] == "thorough" or time.time() - T_START[0] < 40):
+        # second pass: ANOTHER operation completes first (non-initial state), then x is interrupted and retried (x is among the
+        # probes): a memo that is re-keyed before the work is done only goes wrong when it already holds an earlier, different result
+        other = next((p for p in probes if json.dumps(list(p), sort_keys=True, default=str) != json.dumps(list(x), sort_keys=True, default=str)), None)
+        if other is not None:
+            n += seqexplore.interrupted(acc, x, [x] + [p for p in probes if p is not x][:3], run_case, files, scratch_dir(), max_hits=hits, pre=[other])
+            acc.extra["warm_pass"] = True
     acc.ob("interrupted_calls", n)
     acc.sample({"interrupted_operation": xs[job["idx"]][0], "interruption_points": n, "probes": len(probes), "line_hit_bound": hits})
     acc.extra["line_hit_bound"] = hits
